@@ -59,6 +59,11 @@ pub struct FnSpec {
     pub mix_ordinal: bool,
     /// fail when hash(salt, fn, key[, tag][, ordinal]) % fail_mod == 0 (0 = never)
     pub fail_mod: u32,
+    /// what a failure of this function is made of: 0 = the typed harness error; 1 = a
+    /// `reval::Error::UserFunctionError` of an inner function wrapping it (a function that itself
+    /// evaluated a ruleset and propagated the outcome); 2 = the harness error under an anyhow context
+    #[serde(default)]
+    pub fail_style: u8,
 }
 
 impl FnSpec {
@@ -72,6 +77,7 @@ impl FnSpec {
             mix_tag: false,
             mix_ordinal: false,
             fail_mod: 0,
+            fail_style: 0,
         }
     }
 }
